@@ -355,8 +355,16 @@ def check(run):
         run.unrecognised('R5', 'udp-client-port-learned', C + '::on_read_udp', oru.loc(), 'the assignment of the client\'s UDP port was not found (idiom changed)')
     for c in learn:
         g = [(q.render(oru, a), p_) for a, p_ in q.guards_at(oru, c)]
-        from_client = any(p_ and 'm_udp_from.address()' in t and 'm_udp_associate_ep.address()' in t and '==' in t for t, p_ in g)
-        unknown = any(p_ and 'm_udp_associate_ep.port()' in t and '== 0' in t.replace('(', '').replace(')', '') for t, p_ in g)
+
+        def holds_eq(a, p_, lhs_txt, rhs_test):
+            """(a, p_) establishes lhs == rhs, spelled `==` taken or `!=` not taken, operands in either order"""
+            c_ = q.cmp_atom(a)
+            if not c_ or c_[0] not in ('==', '!=') or (c_[0] == '==') != bool(p_):
+                return False
+            s1, s2 = q.render(oru, q.strip_casts(c_[1])), q.render(oru, q.strip_casts(c_[2]))
+            return (s1 == lhs_txt and rhs_test(c_[2], s2)) or (s2 == lhs_txt and rhs_test(c_[1], s1))
+        from_client = any(holds_eq(a, p_, 'm_udp_from.address()', lambda n_, t_: t_ == 'm_udp_associate_ep.address()') for a, p_ in q.guards_at(oru, c))
+        unknown = any(holds_eq(a, p_, 'm_udp_associate_ep.port()', lambda n_, t_: q.int_value(n_) == 0) for a, p_ in q.guards_at(oru, c))
         run.check(from_client and unknown, 'R5', 'udp-client-port-learned', C + '::on_read_udp', oru.loc(c),
                   'the still-unknown client port is taken from a datagram without checking that it comes from the client\'s address (guards: %s): the first datagram from ANY host fixes the port, after which the real client\'s datagrams are treated as replies and never forwarded' % [t for t, p_ in g],
                   'learned only under port()==0 && sender address == client address')
